@@ -15,4 +15,19 @@ def wrapS (bits : Nat) (i : Int) : Int := ((i + 2 ^ (bits - 1)) % 2 ^ bits) - 2 
 /-- `isnan` on the IEEE-754 binary32 / binary64 bit pattern -/
 def isNaN32 (v : UInt32) : Bool := (v >>> 23) &&& 0xFF == 0xFF && v &&& 0x7FFFFF != 0
 def isNaN64 (v : UInt64) : Bool := (v >>> 52) &&& 0x7FF == 0x7FF && v &&& 0xFFFFFFFFFFFFF != 0
+/-! Fixed-width accesses to a byte sequence in **host byte order** (`*(uintN_t*)p`, little-endian host: checked by the translator). -/
+/-- the `n` bytes `a[o], …, a[o+n-1]` read as a little-endian number -/
+def leNat (a : Array UInt8) (o : Nat) : Nat → Nat
+  | 0 => 0
+  | n+1 => (a.getD o 0).toNat + 256 * leNat a (o+1) n
+/-- `a` after storing the `n` low-order bytes of `v`, least significant first, at `a[o], …, a[o+n-1]` -/
+def leStore (a : Array UInt8) (o : Nat) : Nat → Nat → Array UInt8
+  | 0, _ => a
+  | n+1, v => leStore (a.setIfInBounds o (UInt8.ofNat v)) (o+1) n (v / 256)
+def loadLE16 (a : Array UInt8) (o : Nat) : UInt16 := UInt16.ofNat (leNat a o 2)
+def loadLE32 (a : Array UInt8) (o : Nat) : UInt32 := UInt32.ofNat (leNat a o 4)
+def loadLE64 (a : Array UInt8) (o : Nat) : UInt64 := UInt64.ofNat (leNat a o 8)
+def storeLE16 (a : Array UInt8) (o : Nat) (v : UInt16) : Array UInt8 := leStore a o 2 v.toNat
+def storeLE32 (a : Array UInt8) (o : Nat) (v : UInt32) : Array UInt8 := leStore a o 4 v.toNat
+def storeLE64 (a : Array UInt8) (o : Nat) (v : UInt64) : Array UInt8 := leStore a o 8 v.toNat
 end C
